@@ -117,6 +117,15 @@ func packF16(f float32) []byte {
 		exp++
 	}
 
+	// 0x7FFF is reserved to denote invalid data, and it as well as its negative counterpart lie
+	// beyond the documented bounds (+-670760): the extreme values saturate one step inside, so that
+	// every encoding is also decodable.
+	if exp == 15 && signedMantissa >= 2047 {
+		signedMantissa = 2046
+	} else if exp == 15 && signedMantissa <= -2047 {
+		signedMantissa = -2046
+	}
+
 	buffer[1] |= uint8(exp&15) << 3
 
 	if signedMantissa < 0 {
